@@ -7,8 +7,9 @@ The translated text is neutral in the number type `R`; `instantiate` writes it t
 Supported: a backward slice of a function body — assignments `name = expr` (also tuple targets with
 tuple values), `if/elif/else` blocks that assign the same names in every branch (becoming `if … then …
 else …` on tuples), expressions over + - * / ** unary -, comparisons, and/or/not, conditional
-expressions, calls of numpy/math scalar functions, np.array / list literals (nested lists),
-constants.  Anything else raises Untranslatable — the check then reports the translator as broken
+expressions, calls of numpy/math scalar functions, np.array / list literals (nested lists), a flat array
+literal scaled by scalars (`r * np.array([...]) * AU`, numpy broadcasting), functions defined inside the translated
+function by a single `return` (they become auxiliary definitions `<name>_<f>`), constants.  Anything else raises Untranslatable — the check then reports the translator as broken
 (which is not by itself a violation, see DESIGN.md).
 """
 import ast
@@ -36,7 +37,7 @@ def lname(n):
 
 
 class Tr:
-    def __init__(self, consts=None, funcs=None, int_names=(), target_map=None, matmul=None, mat3=False):
+    def __init__(self, consts=None, funcs=None, int_names=(), target_map=None, matmul=None, mat3=False, local_funcs=None):
         self.consts = consts or {}      # python dotted name (or unparsed subscript, e.g. "self.orbit[5]") -> lean text
         self.target_map = target_map or {}  # unparsed subscript assignment target (e.g. "new[5]") -> python-level name
         self.matmul = matmul            # lean function standing for numpy's `@` (None: `@` is untranslatable)
@@ -44,6 +45,26 @@ class Tr:
         self.funcs = dict(FUNCS)
         self.funcs.update(funcs or {})
         self.int_names = set(int_names)  # names that are Nat-typed (exponents etc.)
+        self.local_funcs = local_funcs or {}   # functions defined inside the translated function: plain name -> lean def name
+
+    def arr(self, e):
+        """element texts of a flat array-valued expression (list / np.array literal, possibly scaled by scalars with * or /), else None"""
+        if isinstance(e, (ast.List, ast.Tuple)):
+            if any(isinstance(x, (ast.List, ast.Tuple)) for x in e.elts):
+                return None
+            return [self.expr(x) for x in e.elts]
+        if isinstance(e, ast.Call) and self.dotted(e.func) in ("np.array", "numpy.array", "np.asarray") and len(e.args) == 1:
+            return self.arr(e.args[0])
+        if isinstance(e, ast.BinOp) and isinstance(e.op, (ast.Mult, ast.Div)):
+            left, right = self.arr(e.left), self.arr(e.right)
+            op = "*" if isinstance(e.op, ast.Mult) else "/"
+            if left is not None and right is None:
+                b = self.expr(e.right)
+                return [f"({x} {op} {b})" for x in left]
+            if left is None and right is not None and op == "*":
+                a = self.expr(e.left)
+                return [f"({a} * {x})" for x in right]
+        return None
 
     def dotted(self, node):
         if isinstance(node, ast.Name):
@@ -101,6 +122,10 @@ class Tr:
             op = "*" if isinstance(e.op, ast.Mult) else "/"
             return "[" + ", ".join(f"({self.expr(x)} {op} {b})" for x in self._array_elts(e.left)) + "]"
         if isinstance(e, ast.BinOp):
+            if isinstance(e.op, (ast.Mult, ast.Div)):
+                elems = self.arr(e)     # numpy broadcasting of a scalar over a flat array literal
+                if elems is not None:
+                    return "[" + ", ".join(elems) + "]"
             a = self.expr(e.left)
             if isinstance(e.op, ast.Pow):
                 if isinstance(e.right, ast.Constant) and isinstance(e.right.value, int) and e.right.value >= 0:
@@ -127,6 +152,8 @@ class Tr:
             if d is None:
                 raise Untranslatable("call of non-name")
             short = d.split(".")[-1]
+            if d in self.local_funcs:
+                return f"({self.local_funcs[d]} {' '.join(self.expr(a) for a in e.args)})"
             if d in self.funcs or short in self.funcs and d.split(".")[0] in ("np", "math", "numpy", short):
                 f = self.funcs.get(d, self.funcs.get(short))
                 args = " ".join(self.expr(a) for a in e.args)
@@ -211,7 +238,7 @@ class Tr:
                     t = ast.Name(id=names[0])
                 if isinstance(t, ast.Name):
                     lines.append(f"let {lname(t.id)} : R := {self.expr(s.value)}" if not isinstance(s.value, (ast.List, ast.Tuple)) and not self._is_array(s.value)
-                                 and not self._is_listy(s.value)
+                                 and not self._is_listy(s.value) and self.arr(s.value) is None
                                  else f"let {lname(t.id)} := {self.expr(s.value)}")
                 else:
                     if isinstance(s.value, (ast.Tuple, ast.List)) and len(s.value.elts) == len(t.elts):
@@ -313,13 +340,23 @@ def translate_slice(path, qualname, inputs, outputs, lean_name, result_expr=None
     if stop_before is not None:
         cut = next((i for i, s in enumerate(stmts) if stop_before(s)), len(stmts))
         stmts = stmts[:cut]
-    tr = Tr(consts=consts, funcs=funcs, target_map=target_map, mat3=mat3)
+    # functions defined inside the function (single `return <expr>`): translated to auxiliary definitions <lean_name>_<f>
+    aux = ""
+    local_funcs = {}
+    for s in stmts:
+        if isinstance(s, ast.FunctionDef):
+            fb = [x for x in s.body if not (isinstance(x, ast.Expr) and isinstance(x.value, ast.Constant))]
+            if len(fb) == 1 and isinstance(fb[0], ast.Return) and fb[0].value is not None and not s.args.vararg and not s.args.kwonlyargs:
+                text = Tr(consts=consts, funcs=funcs).expr(fb[0].value)
+                local_funcs[s.name] = f"{lean_name}_{s.name}"
+                aux += f"def {lean_name}_{s.name} ({' '.join(lname(a.arg) for a in s.args.args)} : R) : R :=\n  {text}\n\n"
+    tr = Tr(consts=consts, funcs=funcs, target_map=target_map, mat3=mat3, local_funcs=local_funcs)
     wanted = needed_names(stmts, outputs, inputs, tr) - set(inputs)
     res = result_expr or ("(" + ", ".join(lname(o) for o in outputs) + ")" if len(outputs) > 1 else lname(outputs[0]))
     body = tr.block(stmts, res, wanted)
     args = " ".join(lname(i) for i in inputs)
     binder = f" ({args} : R)" if inputs else ""
-    return f"def {lean_name}{binder} :=\n{indent(body)}\n"
+    return aux + f"def {lean_name}{binder} :=\n{indent(body)}\n"
 
 
 def translate_return(path, qualname, inputs, lean_name, consts=None, funcs=None, select=None):
